@@ -27,6 +27,10 @@ CHECKS = {
   text="Property-based testing of the handshake in the simulator world: generated producer/consumer programs (strictly increasing counter, nop padding, fan-out 1..3, fixed per-opcode delays, environment stalls, back-to-back writes) run on bondmachine.VM; after every tick each consumer's captured sequence must be a prefix of the offered sequence and the producer must not move past a write a consumer has not captured. Two genuine defects (D4, D5) are recorded as known findings, recognised by precondition monitors and excluded so search continues behind them. The same machines and invariant are run in the generated-hardware world (files of Bondmachine.Write_verilog under /verif's Verilog interpreter, observation at the processors' _pc/_rN); the hardware shares D4 (recorded as D4h).",
   note="Trusted: observation at the processors (PC leaving i2rw/r2owa, register values), the precondition monitors that classify D4/D4h/D5 (a duplicate is excused only by D4, a loss only by D5), /verif's Verilog interpreter for the hardware world.",
   technique="property-based testing (rapid) with a history invariant checked every tick; known-finding monitors"),
+ "C05": dict(
+  text="Grammar-based property testing of the assembler's semantics: generated BASM sources (sections with entry, several labels per instruction, random control flow over j/jz with label operands, pseudo-instructions, literals in every integer notation, 0-argument macros in several shapes, 1..3 CPs wired by ioatt, four CLI switch sets, register sizes 8..64) are assembled in-process by the exact call sequence of cmd/basm and simulated; per external output the value stream must equal that of an independent reference interpreter of the SOURCE TEXT (prefix-wise, plus a progress bound). Three genuine defects (D6 entry ignored, macro io-mode leak, trailing-label leak) are recorded as known findings and excluded by construction.",
+  note="Trusted: the reference interpreter harness/c05/ref.go (never calls the assembler, the number importer or the simulator), the Go simulator for the faithful opcodes used, the multi-CP triage that separates the handshake findings of C04.",
+  technique="grammar-based property testing (rapid): reference-interpreter differential on output streams; native go fuzz of the parser (thorough)"),
  "C06": dict(
   text="Property-based testing of fragment graphs: generated DAGs of integer fragment instances (fan-out, links crossing CP boundaries, register-name clashes, the same fragment collapsed twice) are assembled by the real basm pipeline for several partitions each (finest, coarsest, random, collapse lists in topological order) and simulated; every partition's external outputs must equal the direct evaluation of the dataflow graph by an independent evaluator. One genuine defect class (sync-mode deadlock of some partitions) is recorded as a known finding, predicted by a model of the composer's static IO order and excluded so the search continues.",
   note="Trusted: the reference evaluator harness/c06/ref.go, the rendezvous model that recognises the recorded deadlock class, the Go simulator for the faithful opcodes used.",
@@ -59,17 +63,22 @@ CHECKS = {
   text="Property-based testing of the quantum front-end through its public path: generated circuits (n=1..5, every gate alias, arbitrary distinct qubit arguments, packed layers) are compiled by QasmToBmMatrices and compared with an independently written reference unitary (textbook gate tables embedded by bit manipulation); every emitted matrix must be unitary and RunSoftwareSimulation must map each basis state to the reference column. Plus a bounded-exhaustive sweep of every single-gate placement for n<=5. Found the displaced-argument defect (fixed in /repo).",
   note="Trusted: the reference tables in harness/c14/ref.go and the qubit-order convention (first declared = MSB, cx a,b controls on a) taken from the README example; float32 tolerance 1e-4 per emitted matrix.",
   technique="property-based testing (rapid) against a reference model + bounded-exhaustive placement enumeration"),
+ "C15": dict(
+  text="Property-based testing of simulation rules: (a) stateful Add/Del/Suspend/Reactivate/save-load histories over rules generated from the documented grammar: print/parse round-trip by String and by Print, JSON survival, agreement with an independent parser of the grammar; (b) small machines with generated rule lists run through a faithful copy of the -sim loop, through SinglePipelineSimulate and through the real bondmachine -sim binary, judged against a trace predictor written from the docs and the tick convention (set values/valid at tick T, get/show samples, onvalid/onexit events, suspended or deleted rule = absent, independent rules commute). Six documentation-versus-code defects are recorded as known findings and excluded by class.",
+  note="Trusted: the trace predictor and its tick convention (taken from the CLI loop where the docs are silent), numeric decoding of reported values. Native fuzz of Simbox.Add in the thorough tier.",
+  technique="property-based testing (rapid): round-trip + stateful model for rule lists, reference trace predictor and metamorphic relations for simulations, differential against the real CLI"),
  "C17": dict(
   text="Property-based testing over generated machines and batch plans (sequential and concurrent callers of SinglePipelineSimulate / Fitness_default): goroutine accounting after a settle loop must not grow with the number of finished simulations. Exploration; found D9 (fixed in /repo).",
   note="Trusted: runtime.NumGoroutine and the settle loop; retained heap is reported only through the goroutine count (a leaked worker pins its VM).",
   technique="property-based testing (rapid) with a resource-accounting invariant over generated batch histories"),
+ "C18": dict(
+  text="Property-based and bounded-exhaustive lint of generated HDL: random machines (all static opcodes, every dynamic family, modes ha/vn/hy, Threaded 0..3, every shared-object kind attached to 1..3 processors, OnlyDestRegs/CommentedVerilog) and a sweep (every opcode alone and with nop at two register sizes, every shared-object kind x attachments x modes) are rendered by the real Bondmachine.Write_verilog into a scratch directory and every file is parsed and linted by /verif's Verilog front end for exactly the six error classes of the statement. The unchanged tree has 86 distinct lint signatures (about 31 mechanisms): all are recorded as known findings with one minimal configuration each; a diagnostic with an unrecorded signature is a violation.",
+  note="Trusted: /verif's Verilog front end as the approximation of 'a standard Verilog front end' (IEEE 1364-2001, no implicit nets); signature-level recording means a second defect with the identical signature as a recorded one is masked.",
+  technique="property-based testing (rapid) + bounded-exhaustive feature sweep with an in-house Verilog parser/linter as the oracle"),
 }
 
 PENDING = {
- "C05": "check under construction (planned: reference interpreter of BASM source vs simulation)",
- "C15": "check under construction (planned: rule print/parse round-trip + trace predictor)",
  "C16": "check under construction (planned: independent well-formedness validator over front-end outputs)",
- "C18": "check under construction (planned: lint of generated file sets with /verif's Verilog front end)",
 }
 
 HOOK_COMMITS = ["ab27f8d", "598a995"]
